@@ -25,6 +25,7 @@ for d in /verif/seeded/$glob/; do
   name=$(basename $d)
   git -C $MX/repo checkout -q -- . ; git -C $MX/repo clean -fdq -e target -e Cargo.lock
   if ! git -C $MX/repo apply "$d/patch.diff" 2>/dev/null; then echo "| $name | patch does not apply |||||" >> $out.tmp; continue; fi
+  touch $MX/verif/sim/build.rs   # the vocabulary / code harvest must see the changed tree
   row="| $name |"
   for id in C02 C10 C12 C14 C15; do
     o=$(cd $MX/verif && VERIF_DIR=$MX/verif ./check $id $tier 2>&1); c=$?
